@@ -8,9 +8,11 @@ HARNESSES = [
     ("c08_float_trait_table", "float family: 22 derive traits x has_validation x has_finite (Eq/Ord <=> finite)"),
     ("c08_any_trait_table", "other/generic family: 22 derive traits x has_validation"),
     ("c08_from_xor_try_from", "derive lists of <= 3 traits: From together with TryFrom"),
-    ("c08_integer_bounds", "two literal bound validators, all kind pairs, all i32 values"),
-    ("c08_float_bounds", "two validators (4 bound kinds + finite), all non-NaN f64 values"),
-    ("c08_duplicate_validators", "lists of <= 3 validators: same kind twice"),
+] + [("c08_integer_bounds_%s" % p, "two literal bound validators (%s), all i32 values" % p) for p in
+     ("gt_ge", "gt_lt", "gt_le", "ge_gt", "ge_lt", "ge_le", "lt_gt", "lt_ge", "lt_le", "le_gt", "le_ge", "le_lt")] + [
+    ("c08_float_bounds_%s" % p, "two validators (%s), all non-NaN f64 values" % p) for p in
+     ("gt_ge", "gt_lt", "gt_le", "ge_lt", "ge_le", "lt_le", "lt_gt", "le_ge", "fin_lt", "gt_fin")] + [
+    ("c08_duplicate_validators", "lists of 3 validators (symbolic kinds): same kind twice"),
     ("c08_string_len_bounds", "len_char_min / len_char_max / not_empty pairs, all usize values"),
     ("c08_string_sanitizers", "pairs of trim / lowercase / uppercase sanitizers"),
 ]
@@ -18,7 +20,7 @@ HARNESSES = [
 
 def generate(tier, seed):
     plan = Plan("C08", engine="macro_core")
-    plan.source = "// C08 harnesses live in c08_harness.rs (hand-written); this file only pulls them in\n#[path = \"c08_harness.rs\"]\nmod c08_harness;\n"
+    plan.source = "// C08 harnesses live in c08_harness.rs (hand-written); this file only pulls them in\n#[path = \"c08_harness.rs\"]\npub mod c08_harness;\n"
     for hn, what in HARNESSES:
         plan.add(H(hn, "main", {"configuration space": what}))
     plan.add(H("c08_float_trait_table_must_fail", "must_fail", {"sabotage": "reference claims Eq/Ord need only some validation"}))
